@@ -38,14 +38,16 @@ struct Parser {
   unsigned nreports;      // telegrams recognised so far
   bool reported;          // a telegram was completed by the last symbol
   bool sawNonMasterQQ;    // a symbol that is not a master address was seen in source position since the last SYN
+  bool sawSelfZZ;         // destination equal to the source was seen since the last SYN (known-finding region only)
+  bool escThenSyn;        // SYN directly after a lone ESC in source position, sticky until the following telegram ends (known-finding region only)
   Parser() : ph(IDLE), esc(false), cmdRepeat(false), resRepeat(false), crcOk(false), crc(0), need(0), mlen(0), slen(0),
-             nreports(0), reported(false), sawNonMasterQQ(false) {}
-  void drop() { ph = IDLE; esc = false; }
+             nreports(0), reported(false), sawNonMasterQQ(false), sawSelfZZ(false), escThenSyn(false) {}
+  void drop() { if (ph != QQ) escThenSyn = false; ph = IDLE; esc = false; }
   void fault() { reported = false; drop(); }
-  void syn() { reported = false; ph = QQ; esc = false; cmdRepeat = resRepeat = false; crc = 0; mlen = slen = 0; sawNonMasterQQ = false; }
+  void syn() { reported = false; if (ph == QQ && esc) escThenSyn = true; sawSelfZZ = false; ph = QQ; esc = false; cmdRepeat = resRepeat = false; crc = 0; mlen = slen = 0; sawNonMasterQQ = false; }
   void pushM(uint8_t v) { if (mlen < REF_MAXL) m[mlen] = v; mlen++; }
   void pushS(uint8_t v) { if (slen < REF_MAXL) s[slen] = v; slen++; }
-  void complete() { reported = true; nreports++; ph = IDLE; esc = false; }
+  void complete() { reported = true; nreports++; ph = IDLE; esc = false; escThenSyn = false; }
   /** one received symbol (raw, as on the wire) */
   void sym(uint8_t raw) {
     reported = false;
@@ -59,7 +61,6 @@ struct Parser {
       v = raw == 0 ? 0xA9 : 0xAA;
       esc = false;
     } else if (raw == 0xA9) {
-      if (ph == CMDACK || ph == RESACK) { drop(); return; }
       esc = true;
       return;
     }
@@ -68,7 +69,7 @@ struct Parser {
         if (!is_master(v)) { sawNonMasterQQ = true; drop(); return; }
         mlen = 0; pushM(v); ph = ZZ; return;
       case ZZ:
-        if (!valid_addr(v) || v == m[0]) { if (valid_addr(v)) { /* self addressed */ } drop(); return; }
+        if (!valid_addr(v) || v == m[0]) { if (valid_addr(v)) sawSelfZZ = true; drop(); return; }
         pushM(v); ph = PB; return;
       case PB: pushM(v); ph = SB; return;
       case SB: pushM(v); ph = NN; return;
